@@ -196,6 +196,14 @@ theorem sigOpCost_def (t : Tx) (utxos : List Utxo) (p w : Nat)
   simp only [Option.map_some]
   congr 1; omega
 
+/-- `CountSigOps` = `GetLegacySigOpCount`: inaccurate count over every input and output script -/
+theorem countSigOps_eq_spec (t : Tx) (hin : ∀ i ∈ t.ins, i.script.length < 2^31)
+    (hout : ∀ o ∈ t.outs, o.pk.length < 2^31) :
+    countSigOps t = (t.ins.map (fun i => sigOps false i.script)).sum + (t.outs.map (fun o => sigOps false o.pk)).sum := by
+  unfold countSigOps getSigOpCount
+  rw [Lemmas.sum_map_congr _ _ t.ins (fun i hi => Lemmas.countSigOpsV0_eq_spec _ false (hin i hi)),
+    Lemmas.sum_map_congr _ _ t.outs (fun o ho => Lemmas.countSigOpsV0_eq_spec _ false (hout o ho))]
+
 /-- `GetSigOpCost` (BIP16 and segwit active, non-coinbase, every spent output in the view) =
     the protocol's `GetTransactionSigOpCost` = 4·(legacy + P2SH) + witness, on the Spec counters. -/
 theorem sigOpCost_eq_spec (t : Tx) (pks : List Bytes) (hlen : pks.length = t.ins.length)
